@@ -3,135 +3,399 @@
 package contracts_test
 
 // C06 (WP-O) — the consequence clause for a v2 contract AND its negotiated renewal, end to end on a real
-// host node with a real chain, replayed block by block through coq/Actions/Liveness2R.v.
+// host (real sqlite store, chain manager, wallet, volume manager, contract manager) with a real chain,
+// replayed block by block through coq/Actions/Liveness2R.v (which contains Liveness2G: batches, lag).
 //
-// A v2 contract is formed from the host's wallet, confirmed, filled with sectors in a real volume and
-// revised; it is renewed exactly as the coreutils RHP4 server does it (pool validation,
-// Manager.RenewV2Contract: the roots move to the successor at RPC time).  Then
-//   * the renewal is mined with the next block (control): the predecessor ends renewed;
-//   * the renewal's funding input is double-spent in the next block (mined elsewhere): the successor is
-//     rejected after the reject buffer (10), the pass of that block deletes its root rows; with a prune
-//     after that the predecessor cannot build its proof and ends failed (known finding
-//     unconfirmed-renewal-strands-predecessor); without a prune the manager's cached roots and the
-//     sectors are still there and the proof is built: successful.
-// The chain is then mined one block at a time (every block with the pool's transactions, index batch
-// size 1) past the predecessor's expiration height.  Recorded per block of the best chain: what it holds
-// about the predecessor (formation, revision, proof, renewal, expiration — read from the block), and after
-// the indexer caught up: the predecessor's row, whether a storage proof of it is in the pool, the
-// successor's status and whether it has root rows.  Monitors (independent of the model):
-// contract-with-held-data-failed, action-set-differs-from-spec (a proof of the predecessor is in the pool
-// at a processed tip iff the property text asks for one: confirmed, unresolved, window contains the height,
-// data held), unconfirmed-renewal-strands-predecessor.
+// The node is built here rather than by testutil.NewHostNode because the harness has to decide three
+// things itself (timing must never decide an observation):
+//   * the indexer: index.Manager.syncDB runs in its own goroutine whenever the chain changes; here the
+//     same loop body (index/update.go:35-98: chain.UpdatesSince(index, batch), ONE store transaction with
+//     wallet.UpdateChainState + contracts.UpdateChainState + SetLastIndex, then contracts.ProcessActions
+//     and volumes.ProcessActions at the last index of the batch) is called by the harness with a batch
+//     size of its choosing, after it put one or several blocks on the chain: tips inside a batch are never
+//     processed (NoPass), a pass runs while the best chain is lag blocks ahead (Pass true lag);
+//   * the prune (testutil's volume manager prunes every 30 s): PruneSectors is called where the case says;
+//   * the restart: the store and all managers are closed and reopened on the same data directory.
+// The syncer is the recording stub of the C06 selection harness: what ProcessActions hands to it in a pass
+// IS the action set of that pass.
+//
+// Histories (directed cases 0-8, then generated: a variant, 1-3 sectors, random block / batch sizes):
+//   0 never confirmed (funding input double-spent in a block mined elsewhere), successor rejected after the
+//     reject buffer (10), rows deleted by that pass, pruned: the predecessor ends FAILED (recorded finding)
+//   1 confirmed in the next block: renewed            2 never confirmed, no prune: successful
+//   3 confirmed, then reorged out for good by a longer branch holding the double spend, pruned: FAILED (finding)
+//   4 never confirmed, no prune, but the host restarts after the hand-over: FAILED (finding)
+//   5 a foreign empty block first, then confirmed: the pass in between must re-broadcast the pending
+//     successor's formation (= the renewal set) and does not (recorded finding pending-renewal-not-rebroadcast)
+//   6 no renewal, one batch of 12 blocks steps over the window of 10: no pass inside the window, failed
+//     (the model says so too; nothing the code could have done)
+//   7 no renewal, batches of 3 with the chain running 4 ahead     8 no renewal, everything block by block
+// Monitors (independent of the model): contract-with-held-data-failed / -not-successful (only where a pass
+// ran inside the window in time), action-set-differs-from-spec (ALL action kinds of the property text —
+// re-broadcast formation, broadcast final revision, build proof, expire — for all contracts of the node,
+// from the manager's API view at the processed index, against what the pass handed to the syncer),
+// unconfirmed-renewal-strands-predecessor, pending-renewal-not-rebroadcast, process-actions-fails.
 
 import (
 	"context"
 	"fmt"
+	"os"
 	"path/filepath"
+	"sort"
+	"strings"
 	"testing"
 	"time"
 
 	rhp2 "go.sia.tech/core/rhp/v2"
 	proto4 "go.sia.tech/core/rhp/v4"
+	"go.sia.tech/core/consensus"
 	"go.sia.tech/core/types"
+	"go.sia.tech/coreutils"
+	"go.sia.tech/coreutils/chain"
 	rhp4 "go.sia.tech/coreutils/rhp/v4"
+	"go.sia.tech/coreutils/wallet"
 	"go.sia.tech/hostd/v2/host/contracts"
+	"go.sia.tech/hostd/v2/host/storage"
+	"go.sia.tech/hostd/v2/index"
 	"go.sia.tech/hostd/v2/internal/testutil"
+	"go.sia.tech/hostd/v2/persist/sqlite"
 	"go.uber.org/zap"
 )
 
+type c06Node struct {
+	t       *testing.T
+	dir     string
+	hostKey types.PrivateKey
+	cm      *chain.Manager
+	db      *sqlite.Store
+	wallet  *wallet.SingleAddressWallet
+	vm      *storage.VolumeManager
+	com     *contracts.Manager
+	syncer  *c06Syncer
+	spy     *c06PoolSpy
+	index   types.ChainIndex // the processed tip (index.Manager.index)
+}
+
+// c06PoolSpy is the chain manager the contract manager sees: the real one, with the pool's verdict on every
+// set recorded (the model's [ok] is measured here, at the boundary between hostd and coreutils; what
+// ProcessActions does with the verdict is what the replay checks)
+type c06PoolSpy struct {
+	*chain.Manager
+	refusedProof map[types.FileContractID]string // storage proofs refused during the current pass
+	refused      map[string]string               // kind:id of every set the pool refused during the current pass
+}
+
+func (s *c06PoolSpy) AddV2PoolTransactions(basis types.ChainIndex, txns []types.V2Transaction) (bool, error) {
+	known, err := s.Manager.AddV2PoolTransactions(basis, txns)
+	if err != nil && len(txns) > 0 {
+		last := txns[len(txns)-1]
+		for _, r := range last.FileContractResolutions {
+			switch r.Resolution.(type) {
+			case *types.V2StorageProof:
+				s.refusedProof[r.Parent.ID] = err.Error()
+				s.refused["v2-proof:"+r.Parent.ID.String()] = err.Error()
+			case *types.V2FileContractExpiration:
+				s.refused["v2-expire:"+r.Parent.ID.String()] = err.Error()
+			}
+		}
+		for _, r := range last.FileContractRevisions {
+			s.refused["v2-revision:"+r.Parent.ID.String()] = err.Error()
+		}
+		for i := range last.FileContracts {
+			s.refused["v2-rebroadcast:"+last.V2FileContractID(last.ID(), i).String()] = err.Error()
+		}
+	}
+	return known, err
+}
+
+func newC06Chain(t *testing.T, network *consensus.Network, genesis types.Block) *chain.Manager {
+	store, tipState, err := chain.NewDBStore(chain.NewMemDB(), network, genesis, nil)
+	if err != nil {
+		t.Fatal(err)
+	}
+	return chain.NewManager(store, tipState)
+}
+
+func (n *c06Node) open() {
+	t := n.t
+	db, err := sqlite.OpenDatabase(filepath.Join(n.dir, "hostd.sqlite3"), zap.NewNop())
+	if err != nil {
+		t.Fatal(err)
+	}
+	wm, err := wallet.NewSingleAddressWallet(n.hostKey, n.cm, db)
+	if err != nil {
+		t.Fatal(err)
+	}
+	vm, err := storage.NewVolumeManager(db, storage.WithPruneInterval(24*time.Hour))
+	if err != nil {
+		t.Fatal(err)
+	}
+	clog := zap.NewNop()
+	if os.Getenv("VERIF_C06_DEBUG") != "" {
+		clog, _ = zap.NewDevelopment()
+	}
+	com, err := contracts.NewManager(db, vm, n.spy, n.syncer, wm, contracts.WithRejectAfter(10), contracts.WithRevisionSubmissionBuffer(5), contracts.WithLog(clog))
+	if err != nil {
+		t.Fatal(err)
+	}
+	n.db, n.wallet, n.vm, n.com = db, wm, vm, com
+}
+
+func (n *c06Node) close() {
+	n.com.Close()
+	n.vm.Close()
+	n.wallet.Close()
+	n.db.Close()
+}
+
+func newC06Node(t *testing.T, hostKey types.PrivateKey, network *consensus.Network, genesis types.Block) *c06Node {
+	n := &c06Node{t: t, dir: t.TempDir(), hostKey: hostKey, cm: newC06Chain(t, network, genesis), syncer: &c06Syncer{}}
+	n.spy = &c06PoolSpy{Manager: n.cm, refusedProof: map[types.FileContractID]string{}, refused: map[string]string{}}
+	n.open()
+	t.Cleanup(func() { n.close() })
+	return n
+}
+
+func (n *c06Node) mine(addr types.Address, k int) {
+	for i := 0; i < k; i++ {
+		b, ok := coreutils.MineBlock(n.cm, addr, 10*time.Second)
+		if !ok {
+			n.t.Fatal("failed to mine block")
+		} else if err := n.cm.AddBlocks([]types.Block{b}); err != nil {
+			n.t.Fatal(err)
+		}
+	}
+}
+
+// one iteration of index.Manager.syncDB with batch size max; returns false when there was nothing to do
+func (n *c06Node) syncBatch(max int) (reverted []chain.RevertUpdate, applied []chain.ApplyUpdate, perr error, ok bool) {
+	reverted, applied, err := n.cm.UpdatesSince(n.index, max)
+	if err != nil {
+		n.t.Fatal(err)
+	} else if len(reverted) == 0 && len(applied) == 0 {
+		return nil, nil, nil, false
+	}
+	idx := n.index
+	err = n.db.UpdateChainState(func(tx index.UpdateTx) error {
+		if err := n.wallet.UpdateChainState(tx, reverted, applied); err != nil {
+			return err
+		} else if err := n.com.UpdateChainState(tx, reverted, applied); err != nil {
+			return err
+		}
+		if len(applied) > 0 {
+			idx = applied[len(applied)-1].State.Index
+		} else {
+			idx = reverted[len(reverted)-1].State.Index
+		}
+		return tx.SetLastIndex(idx)
+	})
+	if err != nil {
+		n.t.Fatal("UpdateChainState:", err)
+	}
+	n.index = idx
+	n.syncer.v1, n.syncer.v2 = nil, nil
+	n.spy.refusedProof = map[types.FileContractID]string{}
+	n.spy.refused = map[string]string{}
+	if perr = n.com.ProcessActions(idx); perr == nil {
+		perr = n.vm.ProcessActions(idx)
+	}
+	return reverted, applied, perr, true
+}
+
 const (
-	c06rConfirmed = iota
-	c06rNeverPruned
+	c06rNeverPruned = iota
+	c06rConfirmed
 	c06rNeverNotPruned
+	c06rReorgedOut
+	c06rRestarted
+	c06rConfirmedLate
+	c06rPlainSkipped
+	c06rPlainLagging
+	c06rPlain
+	c06rVariants
 )
 
-func c06RenewRun(t *testing.T, em *verifEmitter, id, variant, nsec int) {
-	log := zap.NewNop()
+type c06Sched struct {
+	variant, nsec int
+	blocks, batch func() int // how many blocks are put on the chain at once / processed at once
+}
+
+func c06RenewRun(t *testing.T, em *verifEmitter, id int, sc c06Sched) {
 	seed := func(tag byte) []byte {
 		b := make([]byte, 32)
 		b[0], b[1], b[2] = tag, byte(id), byte(id>>8)
 		return b
 	}
+	variant, nsec := sc.variant, sc.nsec
 	renterKey, hostKey := types.NewPrivateKeyFromSeed(seed(5)), types.NewPrivateKeyFromSeed(seed(6))
 	network, genesis := testutil.V2Network()
-	node := testutil.NewHostNode(t, hostKey, network, genesis, log)
-	other := testutil.NewConsensusNode(t, network, genesis, log)
-	testutil.MineAndSync(t, node, node.Wallet.Address(), int(network.MaturityDelay+5))
-	result := make(chan error, 1)
-	if _, err := node.Volumes.AddVolume(context.Background(), filepath.Join(t.TempDir(), "v.dat"), 10, result); err != nil {
-		t.Fatal(err)
-	} else if err := <-result; err != nil {
-		t.Fatal(err)
-	}
-	cm, com := node.Chain, node.Contracts
+	node := newC06Node(t, hostKey, network, genesis)
+	other := newC06Chain(t, network, genesis)
+	cm := node.cm
 	rng := verifCaseRand(id)
 
-	neg := cm.Tip().Height
-	oldID, fc := formV2Contract(t, cm, com, node.Wallet, node.Syncer, renterKey, hostKey, types.Siacoins(10), types.Siacoins(20), 25, true)
-	newID := oldID.V2RenewalID()
-	ph, eh := fc.ProofHeight, fc.ExpirationHeight
-	em.Step(fmt.Sprintf("LRStart {| rp := {| q_ph := %d; q_eh := %d; q_neg := %d; q_rev0 := 0; q_rb := 10; q_benefit := true; q_held := true |}; s_ph := %d; s_eh := %d; s_rev0 := 0; s_rev := 0 |}",
-		ph, eh, neg, ph+20, eh+20), "LNone")
-	for h := uint64(1); h <= neg; h++ { // the chain before the contract exists
-		em.Step("LRStep (RMine {| d_form := None; d_rev := None; d_proof := false; d_renew := false; d_expire := false |} NoPass)", "LNone")
-	}
+	var oldID, newID types.FileContractID
+	var ph, eh uint64
+	started := false
+	negotiated, renewalOnChain, renewalValid, dataGone := false, false, false, false
+	inTimePass := false             // a pass ran at a tip inside the window while the best chain was below the expiration height
+	proofHanded := map[types.FileContractID]bool{} // a proof went to the pool and is not mined yet
+	plain := map[types.FileContractID]bool{}       // contracts whose formation set is an ordinary formation
 
-	negotiated, renewalOnChain, dataGone := false, false, false
-	st2 := func(s contracts.V2ContractStatus) string { return c06St2[s] }
-	proofInPool := func() bool {
-		for _, txn := range cm.V2PoolTransactions() {
-			for _, res := range txn.FileContractResolutions {
-				if _, ok := res.Resolution.(*types.V2StorageProof); ok && res.Parent.ID == oldID {
-					return true
-				}
-			}
+	idOf := func(x types.FileContractID) string { return strings.TrimPrefix(x.String(), "fcid:")[:8] }
+	// ---- the action set of a pass against the property text
+	checkActions := func() {
+		h := node.index.Height
+		type key struct {
+			kind string
+			id   types.FileContractID
 		}
-		return false
-	}
-	observe := func() string {
-		c, err := com.V2Contract(oldID)
+		want, got := map[key]bool{}, map[key]bool{}
+		v2s, _, err := node.com.V2Contracts(contracts.V2ContractFilter{})
 		if err != nil {
 			t.Fatal(err)
 		}
-		all, err := node.Store.V2SectorRoots()
+		for _, c := range v2s {
+			confirmed, unresolved := c.FormationIndex != (types.ChainIndex{}), c.ResolutionIndex == (types.ChainIndex{})
+			if !confirmed && c.Status != contracts.V2ContractStatusRejected {
+				want[key{"v2-rebroadcast", c.ID}] = true
+			}
+			if confirmed && unresolved && !c.RevisionConfirmed && h <= c.ProofHeight && c.ProofHeight <= h+5 {
+				want[key{"v2-revision", c.ID}] = true
+			}
+			if confirmed && unresolved && c.ProofHeight <= h && h < c.ExpirationHeight {
+				want[key{"v2-proof", c.ID}] = true
+			}
+			if confirmed && unresolved && c.ExpirationHeight <= h {
+				want[key{"v2-expire", c.ID}] = true
+			}
+		}
+		v1s, _, err := node.com.Contracts(contracts.ContractFilter{})
+		if err != nil {
+			t.Fatal(err)
+		}
+		for _, c := range v1s {
+			unresolved := c.ResolutionHeight == 0
+			if !c.FormationConfirmed && c.Status != contracts.ContractStatusRejected {
+				want[key{"rebroadcast", c.Revision.ParentID}] = true
+			}
+			if c.FormationConfirmed && !c.RevisionConfirmed && h <= c.Revision.WindowStart && c.Revision.WindowStart <= h+5 {
+				want[key{"revision", c.Revision.ParentID}] = true
+			}
+			if c.FormationConfirmed && unresolved && c.Revision.WindowStart <= h && h < c.Revision.WindowEnd {
+				want[key{"proof", c.Revision.ParentID}] = true
+			}
+		}
+		for _, set := range node.syncer.v1 {
+			last := set[len(set)-1]
+			switch {
+			case len(last.FileContracts) > 0:
+				got[key{"rebroadcast", last.FileContractID(0)}] = true
+			case len(last.FileContractRevisions) > 0:
+				got[key{"revision", last.FileContractRevisions[0].ParentID}] = true
+			case len(last.StorageProofs) > 0:
+				got[key{"proof", last.StorageProofs[0].ParentID}] = true
+			}
+		}
+		for _, set := range node.syncer.v2 {
+			last := set[len(set)-1]
+			switch {
+			case len(last.FileContracts) > 0:
+				got[key{"v2-rebroadcast", last.V2FileContractID(last.ID(), 0)}] = true
+			case len(last.FileContractRevisions) > 0:
+				got[key{"v2-revision", last.FileContractRevisions[0].Parent.ID}] = true
+			case len(last.FileContractResolutions) > 0:
+				r := last.FileContractResolutions[0]
+				switch r.Resolution.(type) {
+				case *types.V2StorageProof:
+					got[key{"v2-proof", r.Parent.ID}] = true
+				case *types.V2FileContractExpiration:
+					got[key{"v2-expire", r.Parent.ID}] = true
+				case *types.V2FileContractRenewal:
+					got[key{"v2-rebroadcast", types.FileContractID(r.Parent.ID).V2RenewalID()}] = true
+				}
+			}
+		}
+		var diffs []string
+		for k := range got {
+			em.Count("action:" + k.kind)
+			if !want[k] {
+				diffs = append(diffs, fmt.Sprintf("%s of %s handed over but not required", k.kind, idOf(k.id)))
+			}
+		}
+		for k := range want {
+			if got[k] {
+				continue
+			}
+			switch {
+			case node.spy.refused[k.kind+":"+k.id.String()] != "":
+				// ProcessActions built the action and the pool refused the set (a conflict with the action
+				// of an earlier pass that is still unmined, stale proofs while the indexer lags, ...):
+				// nothing can be announced
+				em.Count("action-refused-by-pool:" + k.kind)
+			case k.kind == "v2-rebroadcast" && !plain[k.id]:
+				// the successor's formation set is the renewal set; a set the chain has invalidated cannot be re-broadcast
+				if renewalValid {
+					em.Monitor("pending-renewal-not-rebroadcast", fmt.Sprintf("tip %d: successor %s is unconfirmed and not rejected, its renewal set is still valid (the next block confirms it), but ProcessActions skips a formation set whose last transaction holds no FileContracts (update.go:321)", h, idOf(k.id)))
+				}
+			case k.kind == "v2-revision" && h == ph:
+				// consensus refuses a revision in the block after the proof height (recorded finding of WP-U)
+			case k.kind == "v2-proof" && (dataGone || proofHanded[k.id] || node.spy.refusedProof[k.id] != ""):
+				// the stranded predecessor (reported when it fails) / a second proof conflicts with the one in the pool
+			case k.kind == "v2-expire" && proofHanded[k.id]:
+				// the expiration conflicts with the proof in the pool
+			default:
+				diffs = append(diffs, fmt.Sprintf("%s of %s required but not handed over", k.kind, idOf(k.id)))
+			}
+		}
+		if len(diffs) > 0 {
+			sort.Strings(diffs)
+			em.Monitor("action-set-differs-from-spec", fmt.Sprintf("processed tip %d (best chain %d): %s", h, cm.Tip().Height, strings.Join(diffs, "; ")))
+		}
+		for k := range got {
+			if k.kind == "v2-proof" {
+				proofHanded[k.id] = true
+			}
+		}
+	}
+
+	st2 := func(s contracts.V2ContractStatus) string { return c06St2[s] }
+	observe := func(sent bool) string {
+		c, err := node.com.V2Contract(oldID)
+		if err != nil {
+			t.Fatal(err)
+		}
+		all, err := node.db.V2SectorRoots()
 		if err != nil {
 			t.Fatal(err)
 		}
 		succ := "None"
 		if negotiated {
-			s, err := com.V2Contract(newID)
+			s, err := node.com.V2Contract(newID)
 			if err != nil {
 				t.Fatal(err)
 			}
 			succ = "(Some " + st2(s.Status) + ")"
 		}
-		h := cm.Tip().Height
-		sent := proofInPool()
-		// the property text: a proof for exactly the confirmed, unresolved contracts whose window contains the height
-		// (after the prune of case "never confirmed" the proof cannot be built: its absence is the recorded finding,
-		// reported below when the contract fails, not a difference of the action set)
-		want := c.Status == contracts.V2ContractStatusActive && ph <= h && h < eh
-		if (sent && !want) || (!sent && want && !dataGone) {
-			em.Monitor("action-set-differs-from-spec", fmt.Sprintf("tip %d window %d-%d predecessor %v: proof in pool %v, required %v", h, ph, eh, c.Status, sent, want))
-		}
+		h := node.index.Height
 		if c.Status == contracts.V2ContractStatusFailed {
-			if negotiated && !renewalOnChain {
-				em.Monitor("unconfirmed-renewal-strands-predecessor", fmt.Sprintf("renewal negotiated, never confirmed, successor rejected, rows deleted, pruned: the predecessor (window %d-%d, %d sectors) ends failed at height %d", ph, eh, nsec, h))
-			} else {
-				em.Monitor("contract-with-held-data-failed", fmt.Sprintf("v2 predecessor tip %d window %d-%d", h, ph, eh))
+			switch {
+			case negotiated && !renewalOnChain && dataGone:
+				em.Monitor("unconfirmed-renewal-strands-predecessor", fmt.Sprintf("variant %d: renewal negotiated, not on the best chain, the predecessor (window %d-%d, %d sectors) lost its roots / sectors and ends failed at height %d", variant, ph, eh, nsec, h))
+			case inTimePass:
+				em.Monitor("contract-with-held-data-failed", fmt.Sprintf("v2 predecessor tip %d window %d-%d variant %d", h, ph, eh, variant))
 			}
 		}
-		if h >= eh+2 && c.Status != contracts.V2ContractStatusSuccessful && c.Status != contracts.V2ContractStatusRenewed && !(negotiated && !renewalOnChain && dataGone) {
+		if h >= eh+2 && inTimePass && c.Status != contracts.V2ContractStatusSuccessful && c.Status != contracts.V2ContractStatusRenewed && !(negotiated && !renewalOnChain && dataGone) {
 			em.Monitor("contract-with-held-data-not-successful", fmt.Sprintf("v2 predecessor tip %d window %d-%d: %v", h, ph, eh, c.Status))
 		}
 		em.Count("pred-row:" + string(c.Status))
 		return fmt.Sprintf("LRowR %s %v %v %v %s %v", st2(c.Status), c.FormationIndex != (types.ChainIndex{}), c.ResolutionIndex != (types.ChainIndex{}), sent, succ, len(all[newID]) > 0)
 	}
-	// record the tip block of the best chain as the model's block
-	record := func() {
-		b, ok := cm.Block(cm.Tip().ID)
-		if !ok {
-			t.Fatal("tip block missing")
+	blkCache := map[types.BlockID]string{}
+	blkOf := func(b types.Block) string {
+		if s, ok := blkCache[b.ID()]; ok {
+			return s
 		}
 		form, rev, proof, renew, expire := "None", "None", false, false, false
 		for _, txn := range b.V2Transactions() {
@@ -153,7 +417,7 @@ func c06RenewRun(t *testing.T, em *verifEmitter, id, variant, nsec int) {
 				case *types.V2StorageProof:
 					proof = true
 				case *types.V2FileContractRenewal:
-					renew, renewalOnChain = true, true
+					renew = true
 				case *types.V2FileContractExpiration:
 					expire = true
 				}
@@ -167,21 +431,123 @@ func c06RenewRun(t *testing.T, em *verifEmitter, id, variant, nsec int) {
 		case expire:
 			em.Count("block:expiration")
 		}
-		em.Step(fmt.Sprintf("LRStep (RMine {| d_form := %s; d_rev := %s; d_proof := %v; d_renew := %v; d_expire := %v |} (Pass true 0))", form, rev, proof, renew, expire), observe())
+		blkCache[b.ID()] = fmt.Sprintf("{| d_form := %s; d_rev := %s; d_proof := %v; d_renew := %v; d_expire := %v |}", form, rev, proof, renew, expire)
+		return blkCache[b.ID()]
 	}
-	mine := func() {
-		testutil.MineAndSync(t, node, types.VoidAddress, 1)
-		record()
+	// process the chain in batches of the schedule's sizes until the host has caught up
+	sync := func(batch func() int) {
+		for {
+			reverted, applied, perr, ok := node.syncBatch(batch())
+			if !ok {
+				return
+			}
+			if perr != nil {
+				em.Monitor("process-actions-fails", fmt.Sprintf("tip %v: %v", node.index, perr))
+			}
+			lag := cm.Tip().Height - node.index.Height
+			why, refused := node.spy.refusedProof[oldID]
+			pact := fmt.Sprintf("(Pass %v %d)", !refused, lag)
+			if refused {
+				em.Count("pass:pool-refuses-proof")
+				_ = why
+			}
+			if lag > 0 {
+				em.Count("pass:lagging")
+			} else {
+				em.Count("pass:caught-up")
+			}
+			if len(reverted)+len(applied) > 1 {
+				em.Count("batch:several-blocks")
+			}
+			if !started {
+				continue // the chain before the contract exists: recorded as empty blocks after LRStart
+			}
+			checkActions()
+			sent := false
+			for _, set := range node.syncer.v2 {
+				for _, r := range set[len(set)-1].FileContractResolutions {
+					if _, isProof := r.Resolution.(*types.V2StorageProof); isProof && r.Parent.ID == oldID {
+						sent = true
+					}
+				}
+			}
+			if h := node.index.Height; ph <= h && h < eh && cm.Tip().Height < eh && !dataGone && !refused {
+				inTimePass = true
+			}
+			// the renewal is on the best chain iff the processed chain holds it (the host has caught up when it matters)
+			for _, cru := range reverted {
+				if strings.Contains(blkOf(cru.Block), "d_renew := true") {
+					renewalOnChain = false
+				}
+			}
+			for _, cau := range applied {
+				if strings.Contains(blkOf(cau.Block), "d_renew := true") {
+					renewalOnChain = true
+				}
+			}
+			for i := range reverted {
+				if i == len(reverted)-1 && len(applied) == 0 {
+					em.Step("LRStep (RRevert "+pact+")", observe(sent))
+				} else {
+					em.Step("LRStep (RRevert NoPass)", "LNone")
+				}
+				em.Count("step:revert")
+			}
+			for i, cau := range applied {
+				if i == len(applied)-1 {
+					em.Step("LRStep (RMine "+blkOf(cau.Block)+" "+pact+")", observe(sent))
+				} else {
+					em.Step("LRStep (RMine "+blkOf(cau.Block)+" NoPass)", "LNone")
+					em.Count("pass:none")
+				}
+			}
+		}
+	}
+	one := func() int { return 1 }
+	all := func() int { return 1000 }
+
+	// funds; a volume
+	node.mine(node.wallet.Address(), int(network.MaturityDelay+8))
+	sync(all)
+	result := make(chan error, 1)
+	if _, err := node.vm.AddVolume(context.Background(), filepath.Join(node.dir, "v.dat"), 10, result); err != nil {
+		t.Fatal(err)
+	} else if err := <-result; err != nil {
+		t.Fatal(err)
 	}
 
-	mine() // the formation
+	// a second, ordinary contract of the node (no data, proof window 4 blocks earlier) for the action sets
+	otherID, ofc := formV2Contract(t, cm, node.com, node.wallet, nil, renterKey, hostKey, types.Siacoins(5), types.Siacoins(6), 21, false)
+	plain[otherID] = true
+	_ = ofc
+	neg := cm.Tip().Height
+	var fc types.V2FileContract
+	oldID, fc = formV2Contract(t, cm, node.com, node.wallet, nil, renterKey, hostKey, types.Siacoins(10), types.Siacoins(20), 25, false)
+	plain[oldID] = true
+	newID = oldID.V2RenewalID()
+	ph, eh = fc.ProofHeight, fc.ExpirationHeight
+	em.Step(fmt.Sprintf("LRStart {| rp := {| q_ph := %d; q_eh := %d; q_neg := %d; q_rev0 := 0; q_rb := 10; q_benefit := true; q_held := true |}; s_ph := %d; s_eh := %d; s_rev0 := 0; s_rev := 0 |}",
+		ph, eh, neg, ph+20, eh+20), "LNone")
+	for h := uint64(0); h < neg; h++ {
+		em.Step("LRStep (RMine {| d_form := None; d_rev := None; d_proof := false; d_renew := false; d_expire := false |} NoPass)", "LNone")
+	}
+	started = true
+	// the pass of the next block re-broadcasts both formations (they were not handed to the pool by the "RPC")
+	node.mine(types.VoidAddress, 1)
+	sync(one)
+	node.mine(types.VoidAddress, 1) // ... and this block confirms them
+	sync(one)
+	if c, _ := node.com.V2Contract(oldID); c.Status != contracts.V2ContractStatusActive {
+		t.Fatal("setup: formation not confirmed", c.Status)
+	}
+
 	// upload nsec sectors (one revision)
 	var roots []types.Hash256
 	for i := 0; i < nsec; i++ {
 		var sector [rhp2.SectorSize]byte
 		rng.Read(sector[:256])
 		root := rhp2.SectorRoot(&sector)
-		if err := node.Volumes.Write(root, &sector); err != nil {
+		if err := node.vm.Write(root, &sector); err != nil {
 			t.Fatal(err)
 		}
 		roots = append(roots, root)
@@ -195,99 +561,146 @@ func c06RenewRun(t *testing.T, em *verifEmitter, id, variant, nsec int) {
 	fc.MissedHostValue = fc.MissedHostValue.Sub(collateral)
 	sigHash := cm.TipState().ContractSigHash(fc)
 	fc.HostSignature, fc.RenterSignature = hostKey.SignHash(sigHash), renterKey.SignHash(sigHash)
-	if err := com.ReviseV2Contract(oldID, fc, roots, proto4.Usage{Storage: cost, RiskedCollateral: collateral}); err != nil {
+	if err := node.com.ReviseV2Contract(oldID, fc, roots, proto4.Usage{Storage: cost, RiskedCollateral: collateral}); err != nil {
 		t.Fatal(err)
 	}
-	if err := node.Volumes.Sync(); err != nil {
+	if err := node.vm.Sync(); err != nil {
 		t.Fatal(err)
 	}
 	for i := rng.Intn(3); i > 0; i-- {
-		mine()
+		node.mine(types.VoidAddress, 1)
+		sync(one)
 	}
 
-	// the other node follows the same chain
-	var shared []types.Block
-	for h := uint64(1); h <= cm.Tip().Height; h++ {
-		index, _ := cm.BestIndex(h)
-		b, _ := cm.Block(index.ID)
-		shared = append(shared, b)
-	}
-	if err := other.Chain.AddBlocks(shared); err != nil {
-		t.Fatal(err)
-	}
-
-	// RPCRenewContract as coreutils' server does it
-	cs := cm.TipState()
-	_, fce, err := com.V2FileContractElement(oldID)
-	if err != nil {
-		t.Fatal(err)
-	}
-	additional := types.Siacoins(2)
-	renewal := types.V2FileContractRenewal{
-		NewContract: types.V2FileContract{
-			Filesize: fc.Filesize, Capacity: fc.Capacity, FileMerkleRoot: fc.FileMerkleRoot,
-			ProofHeight: fc.ProofHeight + 20, ExpirationHeight: fc.ExpirationHeight + 20,
-			RenterOutput:    fc.RenterOutput,
-			HostOutput:      types.SiacoinOutput{Address: fc.HostOutput.Address, Value: fc.HostOutput.Value.Add(additional)},
-			MissedHostValue: fc.MissedHostValue.Add(additional), TotalCollateral: fc.TotalCollateral.Add(additional),
-			RenterPublicKey: renterKey.PublicKey(), HostPublicKey: hostKey.PublicKey(),
-		},
-		HostRollover: fc.HostOutput.Value, RenterRollover: fc.RenterOutput.Value,
-	}
-	rsh := cs.RenewalSigHash(renewal)
-	renewal.HostSignature, renewal.RenterSignature = hostKey.SignHash(rsh), renterKey.SignHash(rsh)
-	csh := cs.ContractSigHash(renewal.NewContract)
-	renewal.NewContract.HostSignature, renewal.NewContract.RenterSignature = hostKey.SignHash(csh), renterKey.SignHash(csh)
-	fundAmount := cs.V2FileContractTax(renewal.NewContract).Add(additional)
-	setupTxn := types.V2Transaction{SiacoinOutputs: []types.SiacoinOutput{{Value: fundAmount, Address: fc.HostOutput.Address}}}
-	basis, toSign, err := node.Wallet.FundV2Transaction(&setupTxn, fundAmount, false)
-	if err != nil {
-		t.Fatal(err)
-	}
-	node.Wallet.SignV2Inputs(&setupTxn, toSign)
-	renewalTxn := types.V2Transaction{
-		SiacoinInputs:           []types.V2SiacoinInput{{Parent: setupTxn.EphemeralSiacoinOutput(0)}},
-		FileContractResolutions: []types.V2FileContractResolution{{Parent: fce.Copy(), Resolution: &renewal}},
-	}
-	node.Wallet.SignV2Inputs(&renewalTxn, []int{0})
-	set := rhp4.TransactionSet{Basis: basis, Transactions: []types.V2Transaction{setupTxn, renewalTxn}}
-	if _, err := cm.AddV2PoolTransactions(set.Basis, set.Transactions); err != nil {
-		t.Fatal("renewal refused by the pool:", err)
-	}
-	if err := com.RenewV2Contract(set, proto4.Usage{RiskedCollateral: renewal.NewContract.TotalCollateral.Sub(renewal.NewContract.MissedHostValue)}); err != nil {
-		t.Fatal(err)
-	}
-	negotiated = true
-	em.Step("LRStep RNegotiate", observe())
-	em.Count(fmt.Sprintf("variant:%d", variant))
-
-	if variant == c06rConfirmed {
-		mine() // the renewal is mined with the next block
-	} else {
-		// the double spend of the funding input wins the next block (mined elsewhere)
-		conflict := types.V2Transaction{
-			SiacoinInputs:  []types.V2SiacoinInput{{Parent: setupTxn.SiacoinInputs[0].Parent.Copy()}},
-			SiacoinOutputs: []types.SiacoinOutput{{Address: types.VoidAddress, Value: setupTxn.SiacoinInputs[0].Parent.SiacoinOutput.Value}},
+	if variant < c06rPlainSkipped {
+		// the other node follows the same chain
+		var shared []types.Block
+		for h := uint64(1); h <= cm.Tip().Height; h++ {
+			idx, _ := cm.BestIndex(h)
+			b, _ := cm.Block(idx.ID)
+			shared = append(shared, b)
 		}
-		conflict.SiacoinInputs[0].SatisfiedPolicy = setupTxn.SiacoinInputs[0].SatisfiedPolicy
-		conflict.SiacoinInputs[0].SatisfiedPolicy.Signatures = []types.Signature{hostKey.SignHash(cs.InputSigHash(conflict))}
-		if _, err := other.Chain.AddV2PoolTransactions(basis, []types.V2Transaction{conflict}); err != nil {
-			t.Fatal("conflicting spend refused:", err)
-		}
-		testutil.MineBlocks(t, other, types.VoidAddress, 1)
-		tb, _ := other.Chain.Block(other.Chain.Tip().ID)
-		if err := cm.AddBlocks([]types.Block{tb}); err != nil {
+		if err := other.AddBlocks(shared); err != nil {
 			t.Fatal(err)
 		}
-		testutil.WaitForSync(t, cm, node.Indexer)
-		record()
+		// RPCRenewContract as coreutils' server does it
+		cs := cm.TipState()
+		_, fce, err := node.com.V2FileContractElement(oldID)
+		if err != nil {
+			t.Fatal(err)
+		}
+		additional := types.Siacoins(2)
+		renewal := types.V2FileContractRenewal{
+			NewContract: types.V2FileContract{
+				Filesize: fc.Filesize, Capacity: fc.Capacity, FileMerkleRoot: fc.FileMerkleRoot,
+				ProofHeight: fc.ProofHeight + 20, ExpirationHeight: fc.ExpirationHeight + 20,
+				RenterOutput:    fc.RenterOutput,
+				HostOutput:      types.SiacoinOutput{Address: fc.HostOutput.Address, Value: fc.HostOutput.Value.Add(additional)},
+				MissedHostValue: fc.MissedHostValue.Add(additional), TotalCollateral: fc.TotalCollateral.Add(additional),
+				RenterPublicKey: renterKey.PublicKey(), HostPublicKey: hostKey.PublicKey(),
+			},
+			HostRollover: fc.HostOutput.Value, RenterRollover: fc.RenterOutput.Value,
+		}
+		rsh := cs.RenewalSigHash(renewal)
+		renewal.HostSignature, renewal.RenterSignature = hostKey.SignHash(rsh), renterKey.SignHash(rsh)
+		csh := cs.ContractSigHash(renewal.NewContract)
+		renewal.NewContract.HostSignature, renewal.NewContract.RenterSignature = hostKey.SignHash(csh), renterKey.SignHash(csh)
+		fundAmount := cs.V2FileContractTax(renewal.NewContract).Add(additional)
+		setupTxn := types.V2Transaction{SiacoinOutputs: []types.SiacoinOutput{{Value: fundAmount, Address: fc.HostOutput.Address}}}
+		basis, toSign, err := node.wallet.FundV2Transaction(&setupTxn, fundAmount, false)
+		if err != nil {
+			t.Fatal(err)
+		}
+		node.wallet.SignV2Inputs(&setupTxn, toSign)
+		renewalTxn := types.V2Transaction{
+			SiacoinInputs:           []types.V2SiacoinInput{{Parent: setupTxn.EphemeralSiacoinOutput(0)}},
+			FileContractResolutions: []types.V2FileContractResolution{{Parent: fce.Copy(), Resolution: &renewal}},
+		}
+		node.wallet.SignV2Inputs(&renewalTxn, []int{0})
+		set := rhp4.TransactionSet{Basis: basis, Transactions: []types.V2Transaction{setupTxn, renewalTxn}}
+		if _, err := cm.AddV2PoolTransactions(set.Basis, set.Transactions); err != nil {
+			t.Fatal("renewal refused by the pool:", err)
+		}
+		if err := node.com.RenewV2Contract(set, proto4.Usage{RiskedCollateral: renewal.NewContract.TotalCollateral.Sub(renewal.NewContract.MissedHostValue)}); err != nil {
+			t.Fatal(err)
+		}
+		negotiated, renewalValid = true, true
+		em.Step("LRStep RNegotiate", observe(false))
+
+		// a block mined elsewhere: with the double spend of the renewal's funding input, or empty
+		foreign := func(doubleSpend bool, k int) {
+			if doubleSpend {
+				conflict := types.V2Transaction{
+					SiacoinInputs:  []types.V2SiacoinInput{{Parent: setupTxn.SiacoinInputs[0].Parent.Copy()}},
+					SiacoinOutputs: []types.SiacoinOutput{{Address: types.VoidAddress, Value: setupTxn.SiacoinInputs[0].Parent.SiacoinOutput.Value}},
+				}
+				conflict.SiacoinInputs[0].SatisfiedPolicy = setupTxn.SiacoinInputs[0].SatisfiedPolicy
+				conflict.SiacoinInputs[0].SatisfiedPolicy.Signatures = []types.Signature{hostKey.SignHash(cs.InputSigHash(conflict))}
+				if _, err := other.AddV2PoolTransactions(basis, []types.V2Transaction{conflict}); err != nil {
+					t.Fatal("conflicting spend refused:", err)
+				}
+			}
+			var bs []types.Block
+			for i := 0; i < k; i++ {
+				b, ok := coreutils.MineBlock(other, types.VoidAddress, 10*time.Second)
+				if !ok {
+					t.Fatal("failed to mine block")
+				} else if err := other.AddBlocks([]types.Block{b}); err != nil {
+					t.Fatal(err)
+				}
+				bs = append(bs, b)
+			}
+			if err := cm.AddBlocks(bs); err != nil {
+				t.Fatal(err)
+			}
+			if doubleSpend {
+				renewalValid = false
+			}
+		}
+		switch variant {
+		case c06rConfirmed:
+			node.mine(types.VoidAddress, 1)
+			sync(one)
+		case c06rConfirmedLate:
+			foreign(false, 1)
+			sync(one)
+			// the renter re-broadcasts the set (the host does not); if the pool takes it the next block confirms it
+			if _, err := cm.AddV2PoolTransactions(set.Basis, set.Transactions); err != nil {
+				em.Count("late-renewal:pool-refuses")
+			} else {
+				em.Count("late-renewal:pool-accepts")
+			}
+			node.mine(types.VoidAddress, 1)
+			sync(one)
+		case c06rReorgedOut:
+			node.mine(types.VoidAddress, 1) // confirmed ...
+			sync(one)
+			foreign(true, 2) // ... and replaced by a longer branch without it
+			sync(sc.batch)
+		case c06rRestarted:
+			node.close()
+			node.open()
+			dataGone = true // the manager's cache was reloaded from rows the predecessor no longer has
+			em.Step("LRStep RRestart", observe(false))
+			foreign(true, 1)
+			sync(one)
+		default:
+			foreign(true, 1)
+			sync(one)
+		}
 	}
+
 	pruned := false
-	for cm.Tip().Height <= eh+2 {
-		mine()
-		if variant == c06rNeverPruned && !pruned {
-			if s, _ := com.V2Contract(newID); s.Status == contracts.V2ContractStatusRejected {
-				if err := node.Store.PruneSectors(context.Background(), time.Now().Add(time.Hour)); err != nil {
+	for node.index.Height <= eh+2 {
+		k := sc.blocks()
+		if variant == c06rPlainSkipped && node.index.Height+1 < ph {
+			k = 1 // walk up to the block before the window, then the schedule's one big batch
+		}
+		node.mine(types.VoidAddress, k)
+		sync(sc.batch)
+		if (variant == c06rNeverPruned || variant == c06rReorgedOut) && !pruned {
+			if s, _ := node.com.V2Contract(newID); s.Status == contracts.V2ContractStatusRejected {
+				if err := node.db.PruneSectors(context.Background(), time.Now().Add(time.Hour)); err != nil {
 					t.Fatal(err)
 				}
 				pruned, dataGone = true, true
@@ -295,29 +708,39 @@ func c06RenewRun(t *testing.T, em *verifEmitter, id, variant, nsec int) {
 			}
 		}
 	}
+	em.Count(fmt.Sprintf("variant:%d", variant))
 }
 
 func TestVerifC06Renew(t *testing.T) {
-	em := newVerifEmitter(t, "From HostdBase Require Import Base.\nFrom HostdActions Require Import Rows Liveness Liveness2 Liveness2G Liveness2R LivenessCorr.", "lcase", "lcheck")
+	em := newVerifEmitter(t, "From HostdBase Require Import Base.\nFrom HostdActions Require Import Rows Liveness Liveness2 Liveness2G Liveness1G Liveness2R LivenessCorr.", "lcase", "lcheck")
 	defer em.Close()
 	n := verifN(3)
-	for id := 0; id < 3+n; id++ {
+	for id := 0; id < c06rVariants+n; id++ {
 		if em.Skip(id) {
 			continue
 		}
 		rng := verifCaseRand(id)
-		variant, nsec := rng.Intn(3), 1+rng.Intn(3)
-		desc := "generated"
-		switch id {
-		case 0:
-			variant, nsec, desc = c06rNeverPruned, 1, "directed: never confirmed, successor rejected, rows deleted, pruned (known finding)"
-		case 1:
-			variant, nsec, desc = c06rConfirmed, 2, "directed: the renewal is confirmed in the next block"
-		case 2:
-			variant, nsec, desc = c06rNeverNotPruned, 1, "directed: never confirmed, no prune: the cached roots and the sectors are still there"
+		one := func() int { return 1 }
+		sc := c06Sched{variant: id, nsec: 1 + id%3, blocks: one, batch: one}
+		desc := "directed"
+		switch {
+		case id == c06rReorgedOut:
+			sc.batch = func() int { return 1 } // revert, then the two foreign blocks, one batch each
+		case id == c06rPlainSkipped:
+			sc.blocks, sc.batch = func() int { return 12 }, func() int { return 12 }
+		case id == c06rPlainLagging:
+			sc.blocks, sc.batch = func() int { return 4 }, func() int { return 3 }
+		case id >= c06rVariants:
+			desc = "generated"
+			sc.variant, sc.nsec = rng.Intn(c06rVariants), 1+rng.Intn(3)
+			if sc.variant == c06rPlainSkipped {
+				sc.variant = c06rPlain
+			}
+			sc.blocks = func() int { return 1 + rng.Intn(3) }
+			sc.batch = func() int { return 1 + rng.Intn(4) }
 		}
-		em.BeginCase(id, fmt.Sprintf("%s (variant %d, %d sectors)", desc, variant, nsec))
-		t.Run(fmt.Sprintf("case-%d", id), func(t *testing.T) { c06RenewRun(t, em, id, variant, nsec) })
+		em.BeginCase(id, fmt.Sprintf("%s variant %d, %d sectors", desc, sc.variant, sc.nsec))
+		t.Run(fmt.Sprintf("case-%d", id), func(t *testing.T) { c06RenewRun(t, em, id, sc) })
 		em.EndCase(true)
 	}
 }
